@@ -492,7 +492,7 @@ def _shape_oracle(start, sh, res, stats=None):
 
 def _tracer_bounded(tier, seed):
     rnd = random.Random(seed or 1)
-    n = 40 if tier == "quick" else 3000
+    n = 40 if tier == "quick" else 600        # every shape is traced three times (absolute, relative, half resolution): about a second per shape
     bad = []
     stats = {"shapes": 0, "c11_pairs": 0, "c12_constant_speed": 0}
     for i in range(n):
